@@ -11,8 +11,13 @@ Leaf node
    "steps": [[action, y], ...],    step i = i-th recur: log, do action, then yield y (last step: finish per "end")
    "end": ["ret", v] | ["forever"]}
   action: None | ["raise"] | ["kbi"] | ["extend", up, [target...]] | ["remove", up, [target...]]
+          | ["seq", [action...]]    several calls one after the other in the same context (e.g. remove then extend of one
+                                    doer = restart it); absent in old cases
           up = how many scheduler levels above the doer's own host the call is made on (0 = own host)
           target = ["live", i] (host.doers[i % len]) | ["pool", j] | ["self"] | ["name", "d3"]
+                   | ["sib", i] (the i-th leaf doer, modulo, the host was BUILT with: names the same doer before and after a remove)
+          A doer named by the caller (self / pool / name / sib) that is a bound method is passed as a freshly fetched bound
+          method, as `self.workDo` written in a call is: equal to, but not the same object as, the one passed earlier.
 DoDoer node
   {"k": "dodoer", "tock": f, "always": bool, "kids": [node...]}
 
@@ -21,6 +26,7 @@ Event alphabet (per doer): enter E, recur R, clean C, cease Z, abort A, exit X
 """
 import asyncio
 import gc
+import types
 
 from hio.base import doing
 
@@ -115,19 +121,35 @@ class Ctx:
         self.doist = None
         self.pending = []     # one set of names per extend() call in progress (innermost last): the doers it was given
         self.acting = []      # names of the doers whose scripted membership call is on the Python stack (innermost last)
+        self.members0 = {}    # scheduler name ('doist' or a DoDoer's) -> names of the doers it was built with
+
+
+def _fetch(o):
+    """The doer as a caller names it in a call: a bound method (`obj.meth`) is a new, equal object on every attribute access."""
+    if hasattr(o, "__func__") and hasattr(o, "__self__"):
+        return types.MethodType(o.__func__, o.__self__)
+    return o
 
 
 def _resolve(ctx, host, me_name, targets):
     out = []
     for t in targets:
         if t[0] == "self":
-            out.append(ctx.by_name[me_name])
+            out.append(_fetch(ctx.by_name[me_name]))
         elif t[0] == "pool":
             if ctx.pool:
-                out.append(ctx.pool[t[1] % len(ctx.pool)])
+                out.append(_fetch(ctx.pool[t[1] % len(ctx.pool)]))
         elif t[0] == "name":
             if t[1] in ctx.by_name:
-                out.append(ctx.by_name[t[1]])
+                out.append(_fetch(ctx.by_name[t[1]]))
+        elif t[0] == "sib":
+            # only leaf doers whose own enter context makes no call (like the pool doers): a doer that is entered again
+            # inside extend() and calls the scheduler from there nests a call inside a call on one list; a restarted
+            # DoDoer enters its children again with the same effect (not modelled by C06's oracle, see its ASSUMPTIONS)
+            names = [n for n in ctx.members0.get(getattr(host, "vname", None) or "doist") or []
+                     if ctx.spec[n]["k"] != "dodoer" and not ctx.spec[n].get("enter_act")]
+            if names:
+                out.append(_fetch(ctx.by_name[names[t[1] % len(names)]]))
         elif t[0] == "live":
             ds = host.doers
             if ds:
@@ -169,6 +191,11 @@ def _act(ctx, name, action, where="recur"):
 
 def _act1(ctx, name, action, where):
     a = action[0]
+    if a == "seq":
+        for sub in action[1]:
+            if sub is not None:
+                _act1(ctx, name, sub, where)
+        return
     if a == "raise":
         ctx.trace.raised[name] = "Stop"
         raise Stop(name)
@@ -242,7 +269,7 @@ def _act1(ctx, name, action, where):
                 scheds = [ctx.doist] + [x for x in ctx.by_name.values() if getattr(x, "doers", None) is not None]
                 for m in sub[1:]:
                     for sch in scheds:
-                        if id(sch) not in inside and any(x is m for x in (sch.doers or [])):
+                        if id(sch) not in inside and any(x == m for x in (sch.doers or [])):
                             return True
                 return False
             keep = [o for o in objs if o in host.doers or not _shared(o)]
@@ -252,8 +279,8 @@ def _act1(ctx, name, action, where):
             others = [ctx.by_name[n] for names in ctx.pending for n in names if n in ctx.by_name]
             keep = []
             for o in objs:
-                listers = [q for q in objs + others if q is not o and q is not host
-                           and any(m is o for m in _members(q))]
+                listers = [q for q in objs + others if q != o and q is not host
+                           and any(m == o for m in _members(q))]
                 if o not in host.doers and listers:
                     continue
                 keep.append(o)
@@ -526,6 +553,7 @@ def build_node(ctx, spec, counter, host, prefix="d"):
         ctx.host[name] = host
         kids = [build_node(ctx, s, counter, obj, prefix) for s in spec["kids"]]
         obj.doers = kids
+        ctx.members0[name] = [vname(k) for k in kids]
         return obj
     if k == "doer":
         obj = ScriptDoer(ctx, name, spec)
@@ -582,6 +610,7 @@ def run_program(prog, mode="do", collect=False):
     ctx.doist = doist
     counter = [0]
     doers = [build_node(ctx, s, counter, doist) for s in prog["doers"]]
+    ctx.members0["doist"] = [vname(o) for o in doers]
     pc = [0]
     ctx.pool = [build_node(ctx, s, pc, None, "p") for s in prog.get("pool", [])]
     pre = prog.get("prerun")
